@@ -41,7 +41,9 @@ var c02Signers = []c02Signer{
 	{"K1+digest-altered", "K1", "", "digest"},
 }
 
-var c02Stores = [][]string{{"K1"}, {}, {"K2"}, {"K1", "K2"}, {"K2", "K1"}, {"K1", "K2", "K3"}, {"KX"}}
+var c02Stores = [][]string{{"K1"}, {}, {"K2"}, {"K1", "K2"}, {"K2", "K1"}, {"K1", "K2", "K3"}, {"KX"},
+	// larger stores: the honoured certificate is the fifth / the last of seven
+	{"KX", "KG", "KS", "KA", "K1"}, {"KX", "KG", "KS", "KA", "KE", "K2", "K1"}}
 
 // clock positions relative to the certificate window [T0-1h, T0+1h]
 var c02Clocks = []struct {
@@ -299,7 +301,7 @@ func c02Replay(raw json.RawMessage) ([]string, string) {
 }
 
 func c02Run(r *mc.Run) {
-	r.Rule = "full product kind(7) x signer state(12) x store(7) x clock position(11: both ends of two certificate windows, +-1s) x presentation(2) x signature placement and layout(3: directly under the signed element, nested in an Extensions child, directly under it with the base64 values starting on a new line and wrapped at 64 columns; for signatures that are not honoured also with every such line indented by spaces, which makes the values unreadable as plain base64); a case is non-trivial when the message passed decoding and reached signature processing (every case here does: all are well-formed signed messages); distinct = distinct (kind,signer,store,clock,presentation)"
+	r.Rule = "full product kind(7) x signer state(12) x store(9, up to 7 certificates) x clock position(11: both ends of two certificate windows, +-1s) x presentation(2) x signature placement and layout(3: directly under the signed element, nested in an Extensions child, directly under it with the base64 values starting on a new line and wrapped at 64 columns; for signatures that are not honoured also with every such line indented by spaces, which makes the values unreadable as plain base64); a case is non-trivial when the message passed decoding and reached signature processing (every case here does: all are well-formed signed messages); distinct = distinct (kind,signer,store,clock,presentation)"
 	r.Assume("goxmldsig canonicalisers (used by the harness signer) are correct", "RSA/ECDSA unforgeable")
 	var cases []c02Case
 	n, complete := mc.Enumerate(-1, r.Expired, func(c *mc.Chooser) {
